@@ -1,0 +1,12 @@
+//go:build !verif
+
+// Package verifhook provides named hook points used by the external
+// verification harness. Without the `verif` build tag every function is an
+// empty, inlinable no-op.
+package verifhook
+
+// Point marks a named step (crash point, scheduling point or gate).
+func Point(name string) {}
+
+// Paused reports whether the named background activity is held by the harness.
+func Paused(name string) bool { return false }
